@@ -82,6 +82,21 @@ def case_kind(spec):
     return keys[0]
 
 
+def np_to_py(s):
+    """the spec with numpy scalar constants replaced by Python numbers of the same value"""
+    if isinstance(s, list):
+        if len(s) == 3 and s[0] == "Const" and isinstance(s[1], str) and s[1].startswith("np."):
+            _imports()
+            from pbt.spec import build_const
+            v = build_const(s[1], s[2]).item()
+            t = {bool: "bool", int: "int", float: "float"}.get(type(v))
+            if t is None:
+                return s
+            return ["Const", t, v]
+        return [np_to_py(c) for c in s]
+    return s
+
+
 def kw_reordered(s):
     """The same expression spec with every keyword mapping in reverse insertion
     order (handed over as a plain dict, the other accepted spelling)."""
@@ -122,7 +137,8 @@ def compiled_arg_order(c):
     """Documented signature of compile(e, listed): listed first, the remaining
     free variables in lexicographic order."""
     listed = [n for _, n in c["listed"]]
-    rest = sorted(var_names(c["expr"]) - set(listed) - {"math", "numpy"})
+    ctx_names = {"math", "numpy"} | ({"triple"} if c.get("subclass") else set())
+    rest = sorted(var_names(c["expr"]) - set(listed) - ctx_names)
     return listed + rest
 
 
@@ -233,7 +249,42 @@ def build_object(spec, variant=None):
         listed.append(p.Variable(n) if how == "var" else n)
     if len({n for _, n in c["listed"]}) != len(c["listed"]):
         raise HarnessError("listed variables must be distinct")
+    if c.get("subclass"):
+        import pbt.xproc_worker as _me
+        return _me.SubCompiled(e, listed), e
     return pymbolic.compile(e, listed), e
+
+
+def _sub_compiled_class():
+    from pymbolic.compiler import CompiledExpression
+
+    class SubCompiled(CompiledExpression):
+        """a user subclass with a namespace of its own: 'triple' is a function of the
+        generated code's context, not an argument"""
+
+        def context(self):
+            ctx = CompiledExpression.context(self).copy()
+            ctx["triple"] = _triple
+            return ctx
+    SubCompiled.__module__ = __name__
+    SubCompiled.__qualname__ = "SubCompiled"
+    return SubCompiled
+
+
+def _triple(x):
+    return 3 * x
+
+
+class _LazySub:
+    """module attribute resolved on first use (pymbolic is imported late in the worker)"""
+
+
+def __getattr__(name):
+    if name == "SubCompiled":
+        cls = _sub_compiled_class()
+        globals()["SubCompiled"] = cls
+        return cls
+    raise AttributeError(name)
 
 
 def nest(obj, how):
@@ -391,7 +442,7 @@ def outcome(fn, args):
 def compiled_results(fn, c):
     _imports()
     order = compiled_arg_order(c)
-    out = []
+    out = ["class:" + type(fn).__name__]
     for env_spec in c["envs"]:
         env = envs.build_env(env_spec)
         missing = [n for n in order if n not in env]
@@ -510,6 +561,12 @@ def produce(spec):
             if kind == "expr":
                 tspec = {**spec, "shared": not spec.get("shared")}
             out["twin_digests"] = digests(build_object(tspec)[0])
+            if kind == "expr":
+                nt = np_to_py(spec["expr"])
+                if nt != spec["expr"]:
+                    # numpy scalars replaced by the Python numbers they stand for: an
+                    # equal expression; the walk digest normalises numpy scalars
+                    out["np_twin_digests"] = digests(build_object({**spec, "expr": nt})[0])
             if kind == "expr" and n_kw_reorderable(spec["expr"]):
                 tw = build_object(spec, "kwreorder")[0]
                 out["kw_twin_equal"] = bool(tw == obj) and hash(tw) == hash(obj)
